@@ -55,6 +55,7 @@ package services
 //@   requires conn != nil && conn.bufreaders == 0
 //@   callpre (*Limiter).Allow: ip == raddr(conn)
 //@   callpre event.Payload: len(data) == ite(caller.v < 80, caller.v, 80)
+//@   callpre Discard: n == caller.v - ite(caller.v < 80, caller.v, 80) + 2
 //@   ensures [amp] isUDP(conn) ==> conn.written - old(conn.written) <= totalgrants - old(totalgrants)
 //@   ensures [one-reader] conn.bufreaders == 1
 //@   ensures [event-per-line] nlines - old(nlines) <= nsends - old(nsends)
